@@ -141,7 +141,7 @@ def _work(chunk):
     for item in chunk:
         try:
             r = _MOD.check(item, _TIER)
-        except HarnessError as e:
+        except (HarnessError, Exception) as e:   # anything escaping a check is a harness problem, never a verdict
             r = Res()
             r.count('harness_errors')
             r.notes['harness_error'] = {'item': jsonable(item), 'error': repr(e),
